@@ -312,4 +312,123 @@ theorem readRequest_wire_cl (m : Msg) (h : WFReq m) (hch : isChunked m.te = fals
   cases m
   simp_all
 
+/-- The wire form of a chunked message with the body cut into the given chunks. -/
+def wireChunkedAs (m : Msg) (cs : List Bytes) : Bytes :=
+  headSection m ++ chunkStream cs ++ fields (sortKV (m.trailer.getD [])) ++ crlf
+
+theorem chunkedWrite_eq_chunkStream (d : Bytes) :
+    chunkedWrite d = chunkStream (if d.isEmpty then [] else [d]) := by
+  cases d with
+  | nil => simp [chunkedWrite, chunkStream, crlf]
+  | cons c r => simp [chunkedWrite, chunkStream, crlf]
+
+theorem wire_chunked (m : Msg) (h : isChunked m.te = true) :
+    wire m = wireChunkedAs m (if (m.body.getD []).isEmpty then [] else [m.body.getD []]) := by
+  simp [wire, wireChunkedAs, h, chunkedWrite_eq_chunkStream]
+
+theorem length_le_flatten (cs : List Bytes) (c : Bytes) (h : c ∈ cs) : c.length ≤ cs.flatten.length := by
+  induction cs with
+  | nil => simp at h
+  | cons d r ih =>
+    rcases List.mem_cons.mp h with rfl | h
+    · simp
+    · have := ih h
+      simp only [List.flatten_cons, List.length_append]; omega
+
+theorem join_singleton (x sep : Bytes) : join [x] sep = x := by
+  simp [join, List.intercalate]
+
+/-- Chunked request in ANY chunking of the body (non-empty chunks), with or without a trailer
+section: read back as the same message; whatever follows the final blank line is left. -/
+theorem readRequest_wire_chunked (m : Msg) (h : WFReq m) (hch : isChunked m.te = true)
+    (cs : List Bytes) (hcs : cs.flatten = m.body.getD []) (hne : ∀ c ∈ cs, c ≠ []) (rest : Bytes) :
+    readRequest (wireChunkedAs m cs ++ rest) = .complete (reqParsed m) rest := by
+  obtain ⟨hreq, hcode, hstatus, hm1, hm2, hm3, hm4, hmaj, hmin, hhost, hhdr, htr, hpr, hfr, hbody, htrl⟩ := h
+  obtain ⟨b, hb⟩ := Option.isSome_iff_exists.mp hbody
+  simp only [framingOK, hch, if_true, Bool.and_eq_true, decide_eq_true_eq, hb, Option.getD_some,
+    beq_iff_eq] at hfr
+  obtain ⟨⟨⟨hte, hcl⟩, h11⟩, hb62⟩ := hfr
+  have hteF : teF m = [(teKey, chunkedTok)] := by simp [teF, hte, join_singleton]
+  have hclF : clF m = [] := by simp [clF, hch]
+  obtain ⟨auth, hauth, hhostv⟩ := host_resolved m hreq hhost
+  have hvo : valueOK m.host = true := by simp only [hostOK, Bool.and_eq_true] at hhost; exact hhost.1
+  have hexcl : ∀ k, (exclOf m).contains k = true → has (e2e m) k = false := has_e2e_excl m
+  have hex : exclOf m = [hostKey, clKey, teKey] := by simp [exclOf, hreq]
+  have he_host := hexcl hostKey (by rw [hex]; decide)
+  have he_cl := hexcl clKey (by rw [hex]; decide)
+  have he_te := hexcl teKey (by rw [hex]; decide)
+  have hhead : headOf m = hostF m ++ (teKey, chunkedTok) :: e2e m := by simp [headOf, hteF, hclF]
+  have hvalid : ∀ kv ∈ headOf m, ValidKV kv = true := by
+    intro kv hkv
+    rw [hhead] at hkv
+    rcases List.mem_append.mp hkv with hkv | hkv
+    · exact valid_hostF m hvo kv hkv
+    · rcases List.mem_cons.mp hkv with rfl | hkv
+      · exact validKV_host_te_cl.1
+      · exact valid_e2e m hhdr kv hkv
+  have kn := keys_ne
+  have hvh : vals (headOf m) hostKey = vals (hostF m) hostKey := by
+    rw [hhead, vals_append, vals_cons]
+    simp [kn.2.2.2.2.2.1, vals_eq_nil_of_has _ _ he_host]
+  have hpragma : has (headOf m) pragmaKey = false := by
+    rw [hhead, has_append, has_cons, has_hostF m _ kn.2.2.2.1, hpr]; simp [kn.2.2.2.2.2.2.2.2.1]
+  have htev : vals (headOf m) teKey = [chunkedTok] := by
+    rw [hhead, vals_append, vals_cons, vals_hostF m _ kn.1, vals_eq_nil_of_has _ _ he_te]; simp
+  have hdelte : del (headOf m) teKey = hostF m ++ e2e m := by
+    rw [hhead, del_append, del_hostF_ne m _ kn.1, del_cons, del_eq_self_of_has _ _ he_te]; simp
+  have hdel : del (hostF m ++ e2e m) hostKey = e2e m := by
+    rw [del_append, del_hostF, del_eq_self_of_has _ _ he_host]; simp
+  have hcl' : has (hostF m ++ e2e m) clKey = false := by
+    rw [has_append, has_hostF m _ kn.2.1, he_cl]; rfl
+  have htr' : has (hostF m ++ e2e m) trailerKey = false := by
+    rw [has_append, has_hostF m _ kn.2.2.1, htr]; rfl
+  have h11' : ((m.major == 0 && m.minor == 0) || decide (m.major > 1) || (m.major == 1 && decide (m.minor ≥ 1))) = true := by
+    simp only [atLeast11] at h11; simp only [Bool.or_eq_true] at h11 ⊢; rcases h11 with h | h
+    · exact Or.inl (Or.inr h)
+    · exact Or.inr h
+  -- the trailer section
+  have hne' : ∀ c ∈ cs, c ≠ [] ∧ c.length < 2 ^ 62 := by
+    intro c hc
+    refine ⟨hne c hc, ?_⟩
+    have : c.length ≤ cs.flatten.length := length_le_flatten cs c hc
+    rw [hcs, hb] at this; simp at this; omega
+  obtain ⟨trv, htrv, hrt⟩ : ∃ trv, trv = m.trailer ∧
+      readTrailer none (fields (sortKV (m.trailer.getD [])) ++ crlf ++ rest) = .complete trv rest := by
+    cases ht : m.trailer with
+    | none => exact ⟨none, rfl, by simpa [fields, sortKV] using readTrailer_none none rest⟩
+    | some t =>
+      simp only [trailerOK, ht, Bool.and_eq_true, Bool.not_eq_true', decide_eq_true_eq, beq_iff_eq] at htrl
+      obtain ⟨⟨⟨⟨_, hte0⟩, htv⟩, hts⟩, htl⟩ := htrl
+      have htne : t ≠ [] := by intro e; simp [e] at hte0
+      refine ⟨some t, rfl, ?_⟩
+      simp only [Option.getD_some, hts]
+      have := readTrailer_fields none t htne (fun kv hkv => List.all_eq_true.mp htv kv hkv) htl rest
+      rw [hts] at this; exact this
+  have hwire : wireChunkedAs m cs ++ rest = m.method ++ [32] ++ m.url ++ [32] ++ protoBytes m.major m.minor ++ crlf
+      ++ fields (headOf m) ++ crlf ++ (chunkStream cs ++ (fields (sortKV (m.trailer.getD [])) ++ crlf) ++ rest) := by
+    simp [wireChunkedAs, headSection_eq, startLine, hreq]
+  rw [hwire, readRequest_serialized m.method m.url m.major m.minor auth (headOf m) _
+    hm1 hm2 hm3 hm4 hauth hmaj hmin hvalid (by rw [hvh]; exact vals_hostF_host_le m)]
+  rw [fixPragma_id _ hpragma, hvh, hhostv]
+  rw [readTransfer_chunked false m.method 200 m.major m.minor _ (headOf m) chunkedTok htev (by decide) h11'
+    (by rw [hdelte]; exact hcl') (by rw [hdelte]; exact htr') (by simp) (by decide)]
+  simp only [liftE, finishBody, hdelte, hdel]
+  rw [readBody_chunked cs hne' _ trv rest hrt]
+  simp only [reqParsed, parsedHdr, hclF, reqSkeleton, hcs, hb, Option.getD_some, htrv]
+  congr 1
+  cases m
+  simp_all
+
+/-- C15 / C01: the wire form of a well-formed request re-parses to the request (header list: the
+end-to-end fields plus the explicit `Content-Length`), and not one byte of what follows is touched. -/
+theorem readRequest_wire (m : Msg) (h : WFReq m) (rest : Bytes) :
+    readRequest (wire m ++ rest) = .complete (reqParsed m) rest := by
+  cases hch : isChunked m.te with
+  | false => exact readRequest_wire_cl m h hch rest
+  | true =>
+    rw [wire_chunked m hch]
+    apply readRequest_wire_chunked m h hch
+    · split <;> simp_all
+    · intro c hc; split at hc <;> simp_all
+
 end Martian.Http1
